@@ -55,10 +55,10 @@ type pipe struct {
 	rtimer, wtimer       *time.Timer
 
 	// onData, when set, consumes delivered bytes at once (controller-driven raw endpoint).
-	onData func(b []byte)
-	onFin  func()
-	onRst  func()
-	policy ChunkPolicy
+	onData                   func(b []byte)
+	onFin                    func()
+	onRst                    func()
+	policy                   ChunkPolicy
 	finNotified, rstNotified bool
 }
 
@@ -656,11 +656,11 @@ func (n *Net) Pump() bool {
 
 // PendingDial is an outbound dial waiting for the controller's verdict.
 type PendingDial struct {
-	Addr   string
-	From   string
-	done   chan struct{}
-	conn   net.Conn
-	err    error
+	Addr    string
+	From    string
+	done    chan struct{}
+	conn    net.Conn
+	err     error
 	settled bool
 }
 
